@@ -61,7 +61,7 @@ instance : DecidableEq Tree := fun t u =>
 
 /-- The schema of the pinned code: file contents, a marker per symlink, nothing else. -/
 def contentOnly (m : Bytes) : Schema :=
-  { marker := m, topFile := [.content], topLinkIn := [.marker, .target], topLinkOut := [.marker, .content],
+  { marker := m, linkCond := stdCond, topFile := [.content], topLinkIn := [.marker, .target], topLinkOut := [.marker, .content],
     dirFile := [.content], dirLink := [.marker], dirDir := [] }
 
 theorem flat_append (m : Bytes) (a b : List Leaf) : flat m (a ++ b) = flat m a ++ flat m b := by
@@ -99,11 +99,11 @@ theorem hashPre_dir (m root path ext : Bytes) (es) :
 
 theorem hashPre_link_managed (m root path ext d : Bytes) (h : linkManaged root path d = true) :
     hashPre (contentOnly m) root path ext (.symlink d) = m ++ ensureRelative root d := by
-  simp [hashPre, contentOnly, h]
+  simp [hashPre, contentOnly, evalCond_std, h]
 
 theorem hashPre_link_system (m root path ext d : Bytes) (h : linkManaged root path d = false) :
     hashPre (contentOnly m) root path ext (.symlink d) = m ++ ext := by
-  simp [hashPre, contentOnly, h]
+  simp [hashPre, contentOnly, evalCond_std, h]
 
 /-! ### root causes of collisions -/
 
